@@ -34,10 +34,12 @@ def run(ctx):
     # 3. wide tier: boundary-biased operands at the real widths; Apalache evaluates the SAME operators
     #    with MaxU = 2^64-1 / 2^128-1 (one run per helper and width, in parallel)
     per_op = 40 if ctx.quick else 200
+    if ctx.violations:
+        per_op = 0      # a violation is already established on the small domain: skip the slow wide tier
     quick_ops = ["mul_div", "mul_div_ceil", "mul_div_signed", "round_up_div", "round_up_mag_div",
                  "bound_magnitude", "mul_signed", "add_signed", "usd_to_mt", "apply_factors"]
     wide_total = 0
-    for bits, cinit in ((64, CINIT64), (128, CINIT128)):
+    for bits, cinit in (((64, CINIT64), (128, CINIT128)) if per_op else ()):
         wp = ctx.path("wide%d.ndjson" % bits)
         ctx.run_bin("c01", ["wide", "--bits", bits, "--n", per_op * 21, "--seed", ctx.seed, "--out", wp])
         wev = vlib.read_ndjson(wp)
